@@ -155,6 +155,31 @@ def err_sink_blocks(fn):
             f = t["f"].get("fn")
             if f and f["key"].endswith("FromResidual::from_residual"):
                 out.add(bi)
+    # a helper spliced in by engine/normalize.py: its `return Err(..)` assigns the spliced return place; when the call's result is
+    # propagated with `?` (or is the caller's own result) that assignment makes the caller's result an Err as well
+    for rec in fn.d.get("inlined", []):
+        dest, cont = rec["dest"], rec["cont"]
+        propagated = dest["l"] == 0 and not dest["p"]
+        if not propagated and cont is not None and not dest["p"]:
+            ct = fn.blocks[cont]["term"]
+            if ct["k"] == "call" and (ct["f"].get("fn") or {}).get("key", "").endswith("Try::branch") and is_local(ct["args"][0]) == dest["l"]:
+                propagated = True
+        if not propagated:
+            continue
+        for bi in range(rec["first_block"], rec["first_block"] + rec["blocks"]):
+            b = fn.blocks[bi]
+            if b["cleanup"]:
+                continue
+            for s in b["stmts"]:
+                if s["k"] == "assign" and s["lhs"]["l"] == rec["ret"] and not s["lhs"]["p"]:
+                    rv = s["rv"]
+                    if rv["k"] == "agg" and rv.get("agg") == "adt" and rv["adt"].endswith("result::Result") and rv["variant"] == "Err":
+                        out.add(bi)
+            t = b["term"]
+            if t["k"] == "call" and t["dest"]["l"] == rec["ret"] and not t["dest"]["p"]:
+                f = t["f"].get("fn")
+                if f and f["key"].endswith("FromResidual::from_residual"):
+                    out.add(bi)
     return out
 
 
